@@ -985,6 +985,7 @@ def stepRet (w : World τ) (a : ActId) (f : Frame τ) (fs : List (Frame τ)) (v 
   | .tryBlock _ => w.retTo a fs .unit
   | .finallyBlock cleanup => (w.emit a "cleanup" [0]).retTo a (.seq cleanup :: fs) .unit
   | .reraise e => w.raiseTo a fs e
+  | .closeResume => w.raiseNew a fs .genExit
   | .lockWait l cont => w.lockAcquired a fs l cont
   | .lockBody l user =>                                                -- locks.py Lock.__aexit__
     let w := if user then w.emit a "lexit" [l] else w
@@ -1232,10 +1233,17 @@ def stepRaise (w : World τ) (a : ActId) (f : Frame τ) (fs : List (Frame τ)) (
   | .scopeClose s .. => (w.emitScope a s "sexit" [(w.scope s).name, (w.scope s).inst, 1, w.notDone s]).raiseTo a fs e
   | .tryBlock handlers =>
     match handlers.find? (fun h => h.1.any (fun p => patMatches p (w.exn e))) with
-    | some h => (w.emit a "caught" (w.exnCode e)).retTo a (.seq h.2 :: fs) .unit
+    | some h =>
+      -- being closed synchronously (`__runner__.close()` by the activity below on the control stack): every
+      -- statement of the program is its own coroutine level, and `close()` raises GeneratorExit at each level
+      -- whose sub-coroutine ended without an error
+      let closing := match w.ctl with
+        | (a', _) :: _ :: _ => a' == a
+        | _ => false
+      (w.emit a "caught" (w.exnCode e)).retTo a (.seq h.2 :: (if closing then .closeResume :: fs else fs)) .unit
     | none => w.raiseTo a fs e
   | .finallyBlock cleanup => (w.emit a "cleanup" (1 :: w.exnCode1 e)).retTo a (.seq cleanup :: .reraise e :: fs) .unit
-  | .reraise _ => w.raiseTo a fs e
+  | .reraise _ | .closeResume => w.raiseTo a fs e
   | .lockWait l _ =>                                                   -- locks.py:66-71
     let w := if (w.locks.getD l default).owner == some a then w.lockRelease l else w
     w.raiseTo a fs e
